@@ -96,6 +96,7 @@ type Engine struct {
 	TotalSteps                                          int64
 	Violations                                          []Violation
 	fnsRun                                              map[string]bool
+	cover                                               map[*ssa.BasicBlock]struct{} // -cover: blocks executed
 	curSite                                             string
 	source, fileName                                    string
 	solverPC                                            []*Term
@@ -698,6 +699,9 @@ func (e *Engine) run(fr *frame) {
 	for fr.block != nil {
 		b := fr.block
 		fr.visits[b.Index]++
+		if e.cover != nil {
+			e.cover[b] = struct{}{}
+		}
 		// phis
 		instrs := b.Instrs
 		i := 0
@@ -851,6 +855,49 @@ func (e *Engine) visit(fr *frame, in ssa.Instruction) bool {
 	case *ssa.Defer:
 		fn, args := e.prepareCall(fr, &in.Call)
 		fr.defers = append(fr.defers, deferred{fn, args})
+	case *ssa.Go:
+		// Sequential model of `go f()`: the goroutine body runs to completion at the go
+		// statement (sound for main's single worker goroutine, whose only communication is
+		// the final `done <- true`; the 500 ms watchdog is modelled by the step budget).
+		fn, args := e.prepareCall(fr, &in.Call)
+		e.call(fr, fn, args, nil)
+	case *ssa.MakeChan:
+		fr.set(in, &Chan{})
+	case *ssa.Send:
+		ch, _ := fr.get(e, in.Chan).(*Chan)
+		if ch == nil {
+			panic(pathEnd{kind: "unsupported", msg: "send on nil channel"})
+		}
+		ch.buf = append(ch.buf, copyVal(fr.get(e, in.X)))
+	case *ssa.Select:
+		// the first receive state whose channel holds a value; a blocking select with none
+		// ready cannot happen in the sequential model (the watchdog channel never fires)
+		res := make(Tuple, 2)
+		res[0], res[1] = int64(-1), false
+		for _, st := range in.States {
+			if st.Dir == types.RecvOnly {
+				res = append(res, zero(st.Chan.Type().Underlying().(*types.Chan).Elem()))
+			}
+		}
+		k := 0
+		for i, st := range in.States {
+			if st.Dir != types.RecvOnly {
+				continue
+			}
+			ch, _ := fr.get(e, st.Chan).(*Chan)
+			if res[0].(int64) < 0 && ch != nil && len(ch.buf) > 0 {
+				res[0], res[1] = int64(i), true
+				res[2+k] = ch.buf[0]
+				ch.buf = ch.buf[1:]
+			}
+			k++
+		}
+		if res[0].(int64) < 0 {
+			if in.Blocking {
+				panic(pathEnd{kind: "unsupported", msg: "blocking select with no ready channel"})
+			}
+		}
+		fr.set(in, res)
 	case *ssa.Alloc:
 		var addr *Value
 		if in.Heap {
